@@ -18,7 +18,9 @@ REGISTRY = {
             'the global rules; unmodified fast path = general path; slicing a piece over its whole length returns the piece (what the '
             'subsequence search tests at offset s); for any additive weight the pieces of a partition sum to the whole, and the mass of '
             'a zero-missed-cleavage digest is the protein mass + (k-1) water exactly when no labile / unknown-position mod is copied '
-            'into every piece. The model is tied to /repo by differential correspondence (modified proteins of length 1..40 x every '
+            'into every piece; the piece string re-parses to the piece (via C01 parse_serialize), the str / str-span return types are '
+            'serialize mapped over the annotation return type, and the piece is found at offset s by the search model of C16. '
+            'The model is tied to /repo by differential correspondence (modified proteins of length 1..40 x every '
             'protease x missed cleavages 0..3 x semi x min/max length; semi-/non-enzymatic generators) and every clause (five return '
             'types, re-parse, found again at offset s, mass sum) is evaluated on the implementation',
     'note': 'trusted: Lean kernel, axioms propext/Classical.choice/Quot.sound, the correspondence harness and wire codec, regex -> '
@@ -66,6 +68,20 @@ def canon_reply(m):
     for x in m.split('~'):
         sp, d = x.split('=', 1)
         out.append(sp + '=' + annot.canon_dump(d))
+    return '~'.join(out)
+
+
+def annot_norm_pieces(m):
+    """pieces reply with `{}` / `[]` containers written like None (a parsed protein has None where a generated one may have {})"""
+    if m in ('', 'bad-op'):
+        return m
+    out = []
+    for x in m.split('~'):
+        sp, d = x.split('=', 1)
+        f = d.split('|')
+        if f[7] == 'D':
+            f[7] = 'N'
+        out.append(sp + '=' + '|'.join(f))
     return '~'.join(out)
 
 
@@ -275,7 +291,7 @@ def run(chk):
     from peptacular.constants import PROTEASES
     tier = chk.tier
     rng = chk.rng
-    chk.lean_build(['PeptVerif.Props.C07'], DRV)
+    chk.lean_build(['PeptVerif.Props.C07', 'PeptVerif.Props.C07Canon'], DRV)
     chk.trusted += [
         'modelled (Model/Reorder.lean, Model/Spans.lean): ProFormaAnnotation.slice, has_mods, _return_digested_sequences (annotation '
         'branch, fast and general path), digest from cleavage sites to pieces; not modelled: regex -> cleavage sites (computed by the '
@@ -337,6 +353,20 @@ def run(chk):
         _, out = outputs(c, 'annotation-span')
         return show_pieces(out)
 
+    def dig_impl_str(c):
+        # the same digest with the protein given as a ProForma string and a single rule given as a str (the `isinstance`
+        # branches of digest); only for proteins that are the parse of their own string
+        _, d, rs, mc, semi, lo, hi, comp = c
+        a = annot.undump(d)
+        out = list(digestion.digest(a.serialize(), rs[0] if len(rs) == 1 else list(rs), mc, semi, lo, hi, comp,
+                                    'annotation-span', True))
+        return show_pieces(out)
+
+    def gen_impl_str(c):
+        _, d, which, lo, hi = c
+        a = annot.undump(d)
+        return show_pieces(list(getattr(digestion, GENS[which])(a.serialize(), lo, hi, 'annotation-span')))
+
     def nontrivial(c, im):
         return im.count('~') >= 1 and annot.undump(c[1]).has_mods()
 
@@ -347,6 +377,10 @@ def run(chk):
     cover.__enter__()
     chk.correspond('digest', DRV, dig, dig_line, dig_impl, compare=lambda im, m: im == canon_reply(m), nontrivial_fn=nontrivial)
 
+    rt_dig = [c for c in dig[::4] if cc.roundtrips(annot.undump(c[1])) and not cc.is_odd(annot.undump(c[1]))]
+    chk.correspond('digest(str input)', DRV, rt_dig, dig_line, dig_impl_str,
+                   compare=lambda im, m: annot_norm_pieces(im) == annot_norm_pieces(canon_reply(m)), nontrivial_fn=nontrivial)
+
     def gen_line(c):
         a, spans = outputs(c, 'span')
         return f'pieces\t{c[1]}\t{";".join(show_span(s) for s in spans)}'
@@ -354,12 +388,41 @@ def run(chk):
     chk.correspond('generators', DRV, gens, gen_line, dig_impl, compare=lambda im, m: im == canon_reply(m),
                    nontrivial_fn=nontrivial)
 
+    rt_gen = [c for c in gens[::3] if cc.roundtrips(annot.undump(c[1])) and not cc.is_odd(annot.undump(c[1]))]
+    chk.correspond('generators(str input)', DRV, rt_gen, gen_line, gen_impl_str,
+                   compare=lambda im, m: annot_norm_pieces(im) == annot_norm_pieces(canon_reply(m)), nontrivial_fn=nontrivial)
+
     def pcs_impl(c):
         a = annot.undump(c[0])
-        return show_pieces(list(digestion._return_digested_sequences(a, c[1], 'annotation-span')))
+        pairs = list(digestion._return_digested_sequences(a, c[1], 'annotation-span'))
+        anns = list(digestion._return_digested_sequences(a, c[1], 'annotation'))
+        if [annot.dump(x) for x in anns] != [annot.dump(p) for p, _ in pairs]:
+            return 'annotation and annotation-span return types differ'
+        return show_pieces(pairs)
 
     chk.correspond('pieces', DRV, pcs, lambda c: f'pieces\t{c[0]}\t{";".join(show_span(s) for s in c[1])}', pcs_impl,
                    compare=lambda im, m: im == canon_reply(m), nontrivial_fn=lambda c, im: bool(c[1]) and annot.undump(c[0]).has_mods())
+
+    # string return types, text-exact against serialize (C01's model) mapped over the model's pieces
+    def str_impl(c):
+        a = annot.undump(c[0])
+        return '~'.join(annot.esc(x) for x in digestion._return_digested_sequences(a, c[1], 'str'))
+
+    def strspan_impl(c):
+        a = annot.undump(c[0])
+        return '~'.join(f'{show_span(sp)}={annot.esc(x)}' for x, sp in digestion._return_digested_sequences(a, c[1], 'str-span'))
+
+    spl = lambda c: ";".join(show_span(s) for s in c[1])   # noqa
+    chk.correspond('strings', DRV, pcs, lambda c: f'strings\t{c[0]}\t{spl(c)}', str_impl,
+                   nontrivial_fn=lambda c, im: bool(c[1]) and annot.undump(c[0]).has_mods())
+    chk.correspond('strspans', DRV, pcs, lambda c: f'strspans\t{c[0]}\t{spl(c)}', strspan_impl,
+                   nontrivial_fn=lambda c, im: bool(c[1]) and annot.undump(c[0]).has_mods())
+    gen_pcs = []
+    for c in gens + dig[::3]:
+        _a, _sp = outputs(c, 'span')
+        gen_pcs.append((c[1], [tuple(x) for x in _sp]))
+    chk.correspond('strings', DRV, gen_pcs, lambda c: f'strings\t{c[0]}\t{spl(c)}', str_impl,
+                   nontrivial_fn=lambda c, im: bool(c[1]) and annot.undump(c[0]).has_mods())
 
     # slices: every 0 <= i <= j <= n of short proteins, inplace False/True
     sl = []
@@ -370,11 +433,16 @@ def run(chk):
                 for j in range(i, n + 1):
                     sl.append((c[1], i, j, (i + j) % 2 == 1))
 
+    for c in dig[::9]:
+        n = len(annot.undump(c[1])._sequence)
+        sl.append((c[1], None, rng.randint(0, n), False))
+        sl.append((c[1], rng.randint(0, n), None, True))
+
     def sl_impl(c):
         return annot.dump(cc.apply(annot.undump(c[0]), 'slice', c[1], c[2], inplace=c[3]))
 
-    chk.correspond('slice', DRV, sl, lambda c: f'slice\t{c[0]}\t{c[1]}\t{c[2]}\t{int(c[3])}', sl_impl,
-                   compare=lambda im, m: im == annot.canon_dump(m), nontrivial_fn=lambda c, im: c[1] < c[2] and '|N|N|N|N|N|N|N|N|None|N' not in im)
+    chk.correspond('slice', DRV, sl, lambda c: f'slice\t{c[0]}\t{opt(c[1])}\t{opt(c[2])}\t{int(c[3])}', sl_impl,
+                   compare=lambda im, m: im == annot.canon_dump(m), nontrivial_fn=lambda c, im: c[1] is not None and c[2] is not None and c[1] < c[2] and '|N|N|N|N|N|N|N|N|None|N' not in im)
 
     cover.__exit__()
     unc = {k: v for k, v in cover.report().items() if v}
@@ -426,7 +494,8 @@ def run(chk):
     cc.ranked_oracle(chk, 'mass', mcases, o_mass, classify, key_fn=repr, nontrivial_fn=o_nontrivial)
 
     if tier == 'thorough':
-        chk.leanchecker(['PeptVerif.Model.Reorder', 'PeptVerif.Lemmas.Reorder', 'PeptVerif.Props.C07'])
+        chk.leanchecker(['PeptVerif.Model.Reorder', 'PeptVerif.Model.C07Strings', 'PeptVerif.Lemmas.Reorder', 'PeptVerif.Lemmas.ReorderCanon',
+                         'PeptVerif.Props.C07', 'PeptVerif.Props.C07Canon'])
     return chk.finish(classify)
 
 
